@@ -32,6 +32,22 @@ def cases(tier, seed):
     for t in itertools.product(UNITS[:10] + BAD_UNITS, repeat=2):
         if any(u in BAD_UNITS for u in t):
             add('"%s"' % ''.join(t), ('bad-escape',))
+    # a backslash followed by EVERY character of a code-point sweep: only the eight simple escapes and u are escapes
+    def addp(text, tags):
+        nonlocal n; n += 1
+        out.append({'id': 'p%d' % n, 'kind': 'parse', 'expr': text.encode('utf-8', 'surrogatepass').hex(), 'tags': ['parse'] + list(tags)})
+    sweep = list(range(0x20, 0x800)) + [c + 256 * k for c in map(ord, '"\\/bfnrtu') for k in (8, 16, 37, 255, 256, 4351)]
+    if tier != 'quick':
+        sweep += list(range(0x800, 0xD800)) + list(range(0xE000, 0x10000)) + list(range(0x10000, 0x110000, 251))
+    else:
+        sweep += [rng.randrange(0x800, 0xD800) for _ in range(300)] + [rng.randrange(0x10000, 0x110000) for _ in range(100)]
+    for cp in sweep:
+        if 0xD800 <= cp < 0xE000 or cp > 0x10FFFF:
+            continue
+        q = rng.choice('"\'')
+        addp('%sa\\%sb%s' % (q, chr(cp), q), ('escape-sweep',))
+        if cp % 97 == 0:
+            add('"\\%s"' % chr(cp), ('escape-sweep',))
     for x in NUMS + BAD_NUMS:
         add(x, ('number',)); add('[%s]' % x, ('number',)); add('{"n": %s}' % x, ('number',)); add(' %s ' % x, ('number',))
     # random numbers from the grammar
@@ -59,7 +75,7 @@ def cases(tier, seed):
 def run(tier, seed, replay=None):
     return simple_run('C11', tier, seed, replay,
         'RFC 8259 texts: all strings of up to 2 (quick, sampled above 1500) / 3 (thorough) units over an alphabet of every escape form and representative raw characters '
-        '(ASCII, 2/3/4-byte, JSONata metacharacters), single-quoted twins, malformed escapes / unpaired surrogates, every number syntax incl. -0, subnormals, 17+ digit and >2^53 '
+        '(ASCII, 2/3/4-byte, JSONata metacharacters), single-quoted twins, malformed escapes / unpaired surrogates, a backslash followed by every code point below U+0800 and a sample (thorough: all of the BMP) above, every number syntax incl. -0, subnormals, 17+ digit and >2^53 '
         'integers and out-of-range numbers, generated numbers from the grammar, nested containers with arbitrary inter-token whitespace; each text both parsed (model parser vs '
         'implementation AST, exact) and evaluated (model vs implementation, and encoding/json as independent oracle); distinct = distinct text',
         cases, owner_direct=('jsonself',), timeout_ms=2000)
